@@ -10,6 +10,7 @@ import math
 import itertools
 from fractions import Fraction
 import z3
+import os
 
 # --------------------------------------------------------------------------------------------
 # context
@@ -170,6 +171,12 @@ class Ctx:
                 t = z3.IntVal(t)
             if not any(u.eq(t) and e is None for u, e in terms):
                 terms.append((t, None))
+        if self._instantiating:
+            # re-entered from inside a closure being instantiated (a closure whose body asks the solver something):
+            # the instances made so far are used, no new ones are made (fewer hypotheses is always sound)
+            for fa in self.foralls:
+                hyps.extend(f for f in fa["inst"].values() if f is not None)
+            return hyps
         self._instantiating = True
         try:
             for fa in self.foralls:
@@ -226,24 +233,81 @@ class Ctx:
             if len(atoms) < 2:
                 return goal
             a0 = atoms[0]
-            if any(a.depth != 0 or not a.extent.eq(a0.extent) or not a.lo.eq(a0.lo) for a in atoms):
+            if any(a.depth != 0 for a in atoms):
                 return goal
+            if any(not a.extent.eq(a0.extent) or not a.lo.eq(a0.lo) for a in atoms):
+                # ranges that are equal only under the hypotheses (and this goal's antecedent): one query
+                sol0 = z3.Solver()
+                sol0.set("timeout", 4000)
+                for h in self.hypotheses():
+                    sol0.add(h)
+                if ant is not None:
+                    sol0.add(ant)
+                sol0.add(z3.Or(*[z3.Or(a.extent != a0.extent, a.lo != a0.lo) for a in atoms[1:]]))
+                r0 = sol0.check()
+                if os.environ.get("SIGMA_DEBUG"):
+                    print("SIGMA-PW extents", r0, [str(a.extent)[:80] for a in atoms])
+                if r0 != z3.unsat:
+                    return goal
             diff = g.arg(0) - g.arg(1)
             zero = [(a.sym, z3.RealVal(0)) for a in atoms]
             resid = z3.simplify(z3.substitute(diff, *zero), som=True)
             if not (z3.is_rational_value(resid) and resid.as_fraction() == 0):
-                return goal           # something other than the sums is involved
+                # the part outside the sums must vanish on its own (under the hypotheses and this goal's antecedent)
+                solr = z3.Solver()
+                solr.set("timeout", 3000)
+                for h in self.hypotheses():
+                    solr.add(h)
+                if ant is not None:
+                    solr.add(ant)
+                solr.add(resid != 0)
+                if solr.check() != z3.unsat:
+                    return goal           # something other than the sums is involved
+                diff = diff - resid
             k = z3.Int("sk0")
             point = z3.substitute(diff, *[(a.sym, a.core) for a in atoms])
             sol = z3.Solver()
-            sol.set("timeout", 4000)
+            sol.set("timeout", 1500)
             for h in self.hypotheses():
                 sol.add(h)
             if ant is not None:
                 sol.add(ant)
             sol.add(k >= a0.lo, k < a0.extent)
             sol.add(point != 0)
-            if sol.check() == z3.unsat:
+            rr = sol.check()
+            if rr != z3.unsat:
+                # congruence usually suffices: retry with every non-linear product replaced by an uninterpreted function
+                # of its (sorted) factors -- any proof found for arbitrary `mul` holds for the real product
+                sol2 = z3.Solver()
+                sol2.set("timeout", 4000)
+                for h in self.hypotheses():
+                    sol2.add(h)
+                if ant is not None:
+                    sol2.add(ant)
+                sol2.add(k >= a0.lo, k < a0.extent)
+                sol2.add(_abstract_products(point) != 0)
+                import time as _t
+                _t0 = _t.time()
+                sol2.set("timeout", 1500)
+                rr = sol2.check()
+                if rr != z3.unsat:
+                    # a fresh solver process on the same text is often far quicker than the long-lived in-process
+                    # context (observed: 0.1 s against a 4 s timeout)
+                    import subprocess, tempfile
+                    with tempfile.NamedTemporaryFile("w", suffix=".smt2", prefix="pw_", delete=False) as tf:
+                        tf.write(sol2.to_smt2())
+                    try:
+                        out = subprocess.run(["z3-new", "-T:8", tf.name], capture_output=True, text=True).stdout.strip()
+                        if out.splitlines()[:1] == ["unsat"]:
+                            rr = z3.unsat
+                    finally:
+                        os.unlink(tf.name)
+                if os.environ.get("SIGMA_DEBUG"):
+                    print("SIGMA-PW abstracted", rr, sol2.reason_unknown() if rr == z3.unknown else "", round(_t.time() - _t0, 2))
+                    open("/verif/scratch/pw_query.smt2", "w").write(sol2.to_smt2())
+            if os.environ.get("SIGMA_DEBUG"):
+                print("SIGMA-PW point", rr, str(point)[:600])
+            if rr == z3.unsat:
                 self.notes.append("sum equality discharged by pointwise congruence")
                 return z3.BoolVal(True) if ant is None else z3.Implies(ant, z3.BoolVal(True))
         except z3.Z3Exception:
@@ -350,6 +414,31 @@ def _def_symbols(e):
             stack.append(t.body())
     _sym_cache[k] = out
     return out
+
+
+def _abstract_products(e, memo=None):
+    memo = {} if memo is None else memo
+    i = e.get_id()
+    if i in memo:
+        return memo[i]
+    if not z3.is_app(e) or e.num_args() == 0:
+        memo[i] = e
+        return e
+    ch = [_abstract_products(c, memo) for c in e.children()]
+    if e.decl().kind() == z3.Z3_OP_MUL:
+        nums = [c for c in ch if z3.is_rational_value(c) or z3.is_int_value(c)]
+        rest = [c for c in ch if not (z3.is_rational_value(c) or z3.is_int_value(c))]
+        if len(rest) >= 2:
+            rest = sorted([z3.ToReal(c) if z3.is_int(c) else c for c in rest], key=lambda t: str(t))
+            f = z3.Function(f"mul{len(rest)}", *([z3.RealSort()] * len(rest)), z3.RealSort())
+            r = f(*rest)
+            for c in nums:
+                r = (z3.ToReal(c) if z3.is_int(c) else c) * r
+            memo[i] = r
+            return r
+    r = e.decl()(*ch)
+    memo[i] = r
+    return r
 
 
 def relevant(hyps, goal):
@@ -893,6 +982,22 @@ def power(a, b):
                 return Sym(1 / r)
         if pb == 0.5:
             return sqrt_(a)
+    # integer base, integer exponent >= 0: an INTEGER (array extents such as 2**n + 1), tied to the real power
+    if isinstance(a, int) and not isinstance(a, bool) and a >= 2 and isinstance(b, Sym) and b.is_int:
+        c = ctx()
+        if c is not None and not c.concrete and c.is_nonneg(b.e):
+            from . import npmodel as _N
+            f = z3.Function("ipow", z3.IntSort(), z3.IntSort(), z3.IntSort())
+            e = f(z3.IntVal(a), b.e)
+            key = ("ipow", a, eid(b.e))
+            if key not in c.uf_cache:
+                c.uf_cache[key] = True
+                c.defs.append(e >= 1)
+                c.defs.append(z3.Implies(b.e == 0, e == 1))
+                c.defs.append(z3.Implies(b.e >= 1, e >= a))
+                c.defs.append(z3.ToReal(e) == z(_N.exp_scalar(mul(b, _N.log_scalar(a)))))
+                c.mark_nonneg(e)
+            return Sym(e)
     # general real power of a positive base: a**b = exp(b*log(a))  (the base is recorded; numpy gives nan for a
     # negative base with a non-integer exponent)
     from . import npmodel as _N
